@@ -223,6 +223,19 @@ func instantiateD(n *sx_, positive bool, cands map[string][]*sx_, did *bool, dee
 		}
 		return n
 	case "exists":
+		// an existential in negative position behaves like a universal: (exists x. B) => R is
+		// weakened to (B[c1] or ... or B[cn]) => R
+		if len(n.kids) == 3 && !positive {
+			bs := n.kids[1].kids
+			if len(bs) == 1 && len(bs[0].kids) == 2 && len(cands[bs[0].kids[1].atom]) > 0 {
+				*did = true
+				out := &sx_{kids: []*sx_{{atom: "or"}, {atom: "false"}}}
+				for _, c := range cands[bs[0].kids[1].atom] {
+					out.kids = append(out.kids, substAtom(stripBang(n.kids[2]), bs[0].kids[0].atom, c))
+				}
+				return out
+			}
+		}
 		return n
 	case "and", "or":
 		out := &sx_{kids: []*sx_{n.kids[0]}}
@@ -476,7 +489,52 @@ func preInstantiate(lines []string, pc, goal string, nameHint int, baseSorts map
 			witnesses = kept
 		}
 	}
-	witnessMode := len(witnesses) > 0 && lines != nil
+	// existentials of the hypotheses (and universals in negative position) are skolemised here, so
+	// that their witnesses, successors and predecessors become instantiation points
+	var exNames []string
+	var exLines []string
+	if lines != nil && len(lines) < 4000 {
+		en := 0
+		exFresh := func(sort string) string {
+			en++
+			name := fmt.Sprintf("hw!%d_%d", nameHint, en)
+			exNames = append(exNames, name+" "+sort)
+			return name
+		}
+		for li := len(lines) - 1; li >= 0; li-- { // latest first: closest to the obligation
+			l := lines[li]
+			if len(exNames) >= 8 {
+				break
+			}
+			topNegForall := strings.HasPrefix(l, "(assert (not (forall ((")
+			if !strings.HasPrefix(l, "(assert") || !(strings.Contains(l, "(exists ((") || topNegForall) || len(l) > 20000 {
+				continue
+			}
+			t := parseSexpr(l)
+			if t == nil || len(t.kids) != 2 {
+				continue
+			}
+			before := len(exNames)
+			body := t.kids[1]
+			if topNegForall {
+				// (not (forall a (forall b B))) is an existential: fix a and b
+				inner := body.kids[1]
+				for {
+					v, sort, b2, ok := singleBinder(inner)
+					if !ok {
+						break
+					}
+					inner = substAtom(b2, v, &sx_{atom: exFresh(sort)})
+				}
+				body = &sx_{kids: []*sx_{{atom: "not"}, inner}}
+			}
+			h2 := skolemizeExists(body, true, exFresh)
+			if len(exNames) > before {
+				exLines = append(exLines, "(assert "+h2.String()+")")
+			}
+		}
+	}
+	witnessMode := (len(witnesses) > 0 || len(exNames) > 0) && lines != nil
 	if groundGoal && !witnessMode && (lines == nil || len(groundGoalHyps) == 0 || !strings.Contains(goal, "(select ")) {
 		return nil, nil, negGoal
 	}
@@ -546,6 +604,23 @@ func preInstantiate(lines []string, pc, goal string, nameHint int, baseSorts map
 			return nil, nil, negGoal
 		}
 	}
+	for _, e := range exNames {
+		parts := strings.SplitN(e, " ", 2)
+		decls = append(decls, fmt.Sprintf("(declare-const %s %s)", parts[0], parts[1]))
+		names[parts[0]] = true
+		sorts[parts[0]] = parts[1]
+		if cands[parts[1]] == nil {
+			cands[parts[1]] = map[string]*sx_{}
+		}
+		cands[parts[1]][parts[0]] = &sx_{atom: parts[0]}
+		if parts[1] == "Int" {
+			for _, tt := range []string{"(+ " + parts[0] + " 1)", "(- " + parts[0] + " 1)"} {
+				t := parseSexpr(tt)
+				cands["Int"][t.String()] = t
+			}
+		}
+	}
+	extra = append(extra, exLines...)
 	if witnessMode {
 		if cands["Int"] == nil {
 			cands["Int"] = map[string]*sx_{}
@@ -602,6 +677,8 @@ func preInstantiate(lines []string, pc, goal string, nameHint int, baseSorts map
 		if skSort[s] == "Int" {
 			t := parseSexpr("(- " + s + " 1)")
 			cands["Int"][t.String()] = t
+			t2 := parseSexpr("(+ " + s + " 1)")
+			cands["Int"][t2.String()] = t2
 		}
 	}
 	var hyps []*sx_
@@ -611,7 +688,7 @@ func preInstantiate(lines []string, pc, goal string, nameHint int, baseSorts map
 		lemmaSet[l] = true
 	}
 	for _, l := range lines {
-		if !strings.HasPrefix(l, "(assert") || !strings.Contains(l, "(forall ((") {
+		if !strings.HasPrefix(l, "(assert") || !(strings.Contains(l, "(forall ((") || strings.Contains(l, "(exists ((")) {
 			continue
 		}
 		t := parseSexpr(l)
@@ -723,6 +800,15 @@ func preInstantiate(lines []string, pc, goal string, nameHint int, baseSorts map
 
 func sortKeys(keys []string) {
 	sort.Slice(keys, func(i, j int) bool {
+		// terms built from the goal's skolem constants come first, hypothesis witnesses last
+		gi, gj := strings.Contains(keys[i], "sk!"), strings.Contains(keys[j], "sk!")
+		if gi != gj {
+			return gi
+		}
+		hi, hj := strings.Contains(keys[i], "hw!"), strings.Contains(keys[j], "hw!")
+		if hi != hj {
+			return hj
+		}
 		if len(keys[i]) != len(keys[j]) {
 			return len(keys[i]) < len(keys[j])
 		}
